@@ -292,6 +292,19 @@ def normalize(ctx):
 
                 def is_lammps_norm(self, _n=normal):
                     return _n
+
+                # the cell changed directly (not through System.box_set): recorded as such
+                def set(self, **kw):
+                    rec.calls.append(('box.set', dict(kw)))
+                    _apply(kw)
+
+                def set_abc(self, **kw):
+                    rec.calls.append(('box.set', dict(kw)))
+                    _apply(kw)
+
+                def set_vectors(self, **kw):
+                    rec.calls.append(('box.set', dict(kw)))
+                    _apply(kw)
             for _k, _val in pars.items():
                 setattr(BoxM, _k, _val)
             box = BoxM()
@@ -301,14 +314,24 @@ def normalize(ctx):
                 if origin is not None:
                     _box._o = np.array(origin, dtype=object)
 
-            def bset(**kw):
-                rec.calls.append(('box_set', dict(kw)))
+            def _apply(kw):
                 if 'a' in kw:
                     setv(W)
                 elif 'vects' in kw:
                     setv(kw['vects'], kw.get('origin'))
                 elif 'avect' in kw:
                     setv([kw['avect'], kw['bvect'], kw['cvect']], kw.get('origin'))
+
+            def bset(**kw):
+                rec.calls.append(('box_set', dict(kw)))
+                _apply(kw)
+
+            held = symarray('held', (2, 3), real=True)
+
+            def aprop(key=None, index=None, value=None, a_id=None, scale=False):
+                # relative positions read and written back around a direct change of the cell
+                rec.calls.append(('atoms_prop', key, 'set' if value is not None else 'get', scale, value is held))
+                return held if value is None else None
 
             def wrp(*a_, **k):
                 rec.calls.append(('wrap', a_, k))
@@ -322,7 +345,7 @@ def normalize(ctx):
                 for u_, v_ in zip(X.ravel(), Y.ravel()):
                     compared.append(sp.simplify(sp.sympify(u_) - sp.sympify(v_)))
                 return True
-            system = SymObj(None, {'box': box, 'box_set': bset, 'wrap': wrp}, 'system')
+            system = SymObj(None, {'box': box, 'box_set': bset, 'wrap': wrp, 'atoms_prop': aprop}, 'system')
             ev = SymEval(aliases)
             ev.globals = {'deepcopy': lambda x: (x.copy() if is_arr(x) else x)}
             ev.np_override = {'numpy.linalg.lstsq': lstsq, 'numpy.isclose': close, 'numpy.allclose': close}
@@ -340,7 +363,17 @@ def normalize(ctx):
             live = [p for p in paths if p.done == 'return']
             ctx.need(len(live) == 1, 'normalize does not reduce to one path')
             tagk = '%s-handed, transform %s' % ('left' if left else 'right', 'requested' if want_transform else 'not requested')
-            bs = [c for c in rec.calls if c[0] == 'box_set']
+            bs = [c for c in rec.calls if c[0] in ('box_set', 'box.set')]
+
+            def holds_relative(k_):
+                """the k-th change of the cell holds the box-relative positions: box_set(scale=True), or a direct change between reading the relative positions and writing the same values back"""
+                c_ = bs[k_]
+                if c_[0] == 'box_set':
+                    return c_[1].get('scale') is True
+                at = [i for i, x in enumerate(rec.calls) if x is c_][0]
+                before_ = [x for x in rec.calls[:at] if x[0] == 'atoms_prop']
+                after_ = [x for x in rec.calls[at + 1:] if x[0] == 'atoms_prop']
+                return bool(before_) and before_[-1][1:4] == ('pos', 'get', True) and bool(after_) and after_[0][1:] == ('pos', 'set', True, True)
             if normal:
                 # a cell that is already in LAMMPS form may hold atoms outside it (and a non-zero origin): the result still has every atom inside
                 kinds = [c[0] for c in rec.calls]
@@ -367,13 +400,13 @@ def normalize(ctx):
                     kw = bs[0][1]
                     given = np.asarray(kw['vects'], dtype=object) if 'vects' in kw else (np.array([kw.get('avect'), kw.get('bvect'), kw.get('cvect')], dtype=object) if all(k_ in kw for k_ in ('avect', 'bvect', 'cvect')) else None)
                     ok = given is not None and np.shape(given) == (3, 3) and equal(given, np.array([V[0], V[1], -V[2]], dtype=object), deep=False) and 'origin' in kw and equal(np.asarray(kw['origin'], dtype=object), o + V[2], deep=False) \
-                        and kw.get('scale', False) is False
+                        and kw.get('scale', False) is False and not (bs[0][0] == 'box.set' and holds_relative(0))
                 ctx.ob('NORMALIZE', loc, 'a left-handed cell has its third vector reversed about the far face (a, b, -c, origin + c), holding absolute positions', ok, str(bs[0][1].keys()) if bs else '', node=fn)
             else:
                 ctx.ob('NORMALIZE', loc, 'a right-handed cell is not flipped', len(bs) == 1, node=fn)
             if bs:
                 kw = bs[-1][1]
-                ok = all(kw.get(k) == pars[k] for k in pars) and kw.get('scale') is True and set(kw) == set(pars) | {'scale'}
+                ok = all(kw.get(k) == pars[k] for k in pars) and holds_relative(len(bs) - 1) and set(kw) - {'scale'} == set(pars)
                 ctx.ob('NORMALIZE', loc, 'the cell is rebuilt from its own (a, b, c, alpha, beta, gamma) holding scaled positions (handed=%s)' % ('left' if left else 'right'), ok, str(sorted(kw)), node=fn, key='rebuild %s' % left)
             kinds = [c[0] for c in rec.calls]
             ok = 'wrap' in kinds and kinds.index('wrap') == len(kinds) - 1 and kinds.count('wrap') == 1
@@ -384,9 +417,201 @@ def normalize(ctx):
     ctx.ob('NORMALIZE', SYS + '::System.normalize', 'System.normalize delegates to lammps.normalize on itself', len(cs) >= 1, node=sn)
 
 
+def _lammps_form(v):
+    """the LAMMPS-form vectors with the lengths and angles of the rows of v (exact)"""
+    a_, b_, c_ = [sp.sqrt(sum(x ** 2 for x in row)) for row in v]
+    cg = sum(x * y for x, y in zip(v[0], v[1])) / (a_ * b_)
+    cb = sum(x * y for x, y in zip(v[0], v[2])) / (a_ * c_)
+    ca = sum(x * y for x, y in zip(v[1], v[2])) / (b_ * c_)
+    lx, xy, xz = a_, b_ * cg, c_ * cb
+    ly = sp.sqrt(b_ ** 2 - xy ** 2)
+    yz = (b_ * c_ * ca - xy * xz) / ly
+    lz = sp.sqrt(c_ ** 2 - xz ** 2 - yz ** 2)
+    z = sp.Integer(0)
+    return np.array([[sp.nsimplify(sp.simplify(e)) for e in row] for row in ((lx, z, z), (xy, ly, z), (xz, yz, lz))], dtype=object)
+
+
+def normalize_state(ctx):
+    """normalize() interpreted whole on a model system that *has state* (cell vectors, origin, stored Cartesian positions), on exact rational cells: a LAMMPS-form cell
+    turned by a rational rotation, right-handed and with its third vector reversed.  Judged is what the function leaves behind, not which helper it went through."""
+    fn = ctx.fn(NRM, 'normalize')
+    loc = NRM + '::normalize'
+    aliases = module_aliases(ctx.mod(NRM))
+    R = sp.Rational
+    Q = np.array([[R(2, 3), R(-1, 3), R(2, 3)], [R(2, 3), R(2, 3), R(-1, 3)], [R(-1, 3), R(2, 3), R(2, 3)]], dtype=object)       # a proper rotation
+    L = np.array([[R(3), R(0), R(0)], [R(1), R(4), R(0)], [R(-1), R(2), R(5)]], dtype=object)                                      # LAMMPS form
+    Vr = L.dot(Q)
+    O0 = np.array([R(1, 2), R(-2), R(3)], dtype=object)
+    S0 = np.array([[R(1, 4), R(1, 3), R(1, 5)], [R(7, 2), R(-5, 3), R(3, 4)]], dtype=object)      # the second atom is far outside the cell
+
+    def mat(a):
+        return sp.Matrix(np.asarray(a, dtype=object).tolist())
+
+    class BoxC(PyStub):
+        def __init__(self, v, o, hist=None):
+            self._v, self._o = np.array(v, dtype=object), np.array(o, dtype=object)
+            self.hist = hist if hist is not None else []
+            self.hist.append(self._v.copy())
+        vects = property(lambda self: self._v.copy())
+        origin = property(lambda self: self._o.copy())
+        avect = property(lambda self: self._v[0].copy())
+        bvect = property(lambda self: self._v[1].copy())
+        cvect = property(lambda self: self._v[2].copy())
+
+        def _tok(self, name):
+            return sp.Symbol('%s_of_cell_%d' % (name, len(self.hist) - 1), positive=True)
+        a = property(lambda self: self._tok('a'))
+        b = property(lambda self: self._tok('b'))
+        c = property(lambda self: self._tok('c'))
+        alpha = property(lambda self: self._tok('alpha'))
+        beta = property(lambda self: self._tok('beta'))
+        gamma = property(lambda self: self._tok('gamma'))
+
+        def _put(self, v, o):
+            self._v, self._o = np.array(v, dtype=object), np.array(o, dtype=object)
+            self.hist.append(self._v.copy())
+
+        def is_lammps_norm(self):
+            v = self._v
+            return bool(v[0, 1] == 0 and v[0, 2] == 0 and v[1, 2] == 0 and v[0, 0] > 0 and v[1, 1] > 0 and v[2, 2] > 0)
+
+        def set_vectors(self, avect, bvect, cvect, origin=None):
+            self._put([avect, bvect, cvect], [0, 0, 0] if origin is None else origin)
+
+        def set_abc(self, a, b, c, alpha=90, beta=90, gamma=90, origin=None):
+            gens = set()
+            for name, val in (('a', a), ('b', b), ('c', c), ('alpha', alpha), ('beta', beta), ('gamma', gamma)):
+                nm = str(val)
+                if not nm.startswith(name + '_of_cell_'):
+                    raise Opaque('set_abc(%s=%s): not a parameter read from a cell of the model' % (name, val))
+                gens.add(int(nm.rsplit('_', 1)[1]))
+            if len(gens) != 1:
+                raise Opaque('set_abc with parameters of different cells')
+            self._put(_lammps_form(self.hist[gens.pop()]), [0, 0, 0] if origin is None else origin)
+
+        def set(self, **kw):
+            kw = dict(kw)
+            if 'vects' in kw:
+                v = kw.pop('vects')
+                o = kw.pop('origin', [0, 0, 0])
+                if kw:
+                    raise WouldRaise('AssertionError: Invalid arguments')
+                self._put(v, o)
+            elif 'avect' in kw:
+                self.set_vectors(**kw)
+            elif 'a' in kw:
+                self.set_abc(**kw)
+            elif 'origin' in kw and len(kw) == 1:
+                self._o = np.array(kw['origin'], dtype=object)
+            else:
+                raise Opaque('Box.set(%s) outside the model' % sorted(kw))
+
+        def position_cartesian_to_relative(self, x):
+            x = np.asarray(x, dtype=object)
+            inv = np.array(mat(self._v).inv().tolist(), dtype=object)
+            return (x - self._o).dot(inv)
+
+        def position_relative_to_cartesian(self, s_):
+            return np.asarray(s_, dtype=object).dot(self._v) + self._o
+
+    class AtomsC(PyStub):
+        def __init__(self, pos):
+            self.pos = np.array(pos, dtype=object)
+            self.natoms = len(self.pos)
+
+        @property
+        def view(self):
+            return {'pos': self.pos}
+
+    class SysC(PyStub):
+        def __init__(self, box, pos):
+            self.box, self.atoms, self.pbc, self.events = box, AtomsC(pos), np.array([True, True, True]), []
+
+        @property
+        def natoms(self):
+            return self.atoms.natoms
+
+        def atoms_prop(self, key=None, index=None, value=None, a_id=None, scale=False):
+            if key != 'pos' or index is not None or a_id is not None:
+                raise Opaque('atoms_prop(%r, index=%r) outside the model' % (key, index))
+            if value is None:
+                return self.box.position_cartesian_to_relative(self.atoms.pos) if scale else self.atoms.pos.copy()
+            self.atoms.pos = np.array(self.box.position_relative_to_cartesian(value) if scale else value, dtype=object)
+            return None
+
+        def box_set(self, **kw):
+            kw = dict(kw)
+            scale = kw.pop('scale', False)
+            if scale is True:
+                spos = self.atoms_prop('pos', scale=True)
+                self.box.set(**kw)
+                self.atoms_prop('pos', value=spos, scale=True)
+            elif scale is False:
+                self.box.set(**kw)
+            else:
+                raise WouldRaise('TypeError: Invalid scale type')
+
+        def wrap(self, *a, **k):
+            self.events.append(('wrap', self.box._v.copy(), self.box._o.copy(), self.atoms.pos.copy()))
+
+    def clone(x):
+        if isinstance(x, SysC):
+            return SysC(BoxC(x.box._v, x.box._o), x.atoms.pos)
+        if isinstance(x, BoxC):
+            return BoxC(x._v, x._o)
+        return x.copy() if is_arr(x) else x
+
+    def lstsq(A, B, rcond=None):
+        return (np.array((mat(A).inv() * mat(B)).tolist(), dtype=object), None, None, None)
+    n = 0
+    for tag, V0, Sexp in (('right-handed cell', Vr, S0), ('left-handed cell (third vector reversed)', np.array([Vr[0], Vr[1], -Vr[2]], dtype=object), np.array([[r[0], r[1], 1 - r[2]] for r in S0], dtype=object)),
+                          ('cell already in LAMMPS form, non-zero origin', L, S0)):
+        for want_t in (False, True):
+            n += 1
+            inp = SysC(BoxC(V0, O0), S0.dot(V0) + O0)
+            before = (inp.box._v.copy(), inp.box._o.copy(), inp.atoms.pos.copy())
+            ev = SymEval(aliases)
+            ev.globals = {'deepcopy': clone}
+            ev.np_override = {'numpy.linalg.lstsq': lstsq}
+            key = '%s %s' % (tag[:22], want_t)
+            try:
+                live = [q for q in ev.run_fn(fn, [inp], {'return_transform': want_t}) if q.done == 'return']
+            except WouldRaise as e:
+                ctx.ob('NORMALIZE', loc, '%s: the function runs to completion' % tag, False, str(e), node=fn, key='state runs ' + key)
+                continue
+            except Opaque as e:
+                raise AnalysisError('normalize on the model system (%s): %s' % (tag, e))
+            ctx.need(len(live) == 1, 'normalize does not reduce to one path on the model system (%s)' % tag)
+            ret = live[0].ret
+            out, T = (ret if isinstance(ret, tuple) and len(ret) == 2 else (ret, None))
+            if not isinstance(out, SysC):
+                ctx.ob('NORMALIZE', loc, '%s: a system is returned' % tag, False, str(type(out)), node=fn, key='state ret ' + key)
+                continue
+            ctx.ob('NORMALIZE', loc, '%s, transform %s: the system returned is a copy and the input keeps its cell and positions' % (tag, 'requested' if want_t else 'not requested'),
+                   out is not inp and out.box is not inp.box and equal(inp.box._v, before[0], deep=False) and equal(inp.box._o, before[1], deep=False) and equal(inp.atoms.pos, before[2], deep=False) and (T is not None) == want_t,
+                   node=fn, key='state copy ' + key)
+            if want_t:
+                # the transformation is a proper rotation taking the old (right-handed) vectors onto the new ones
+                Tm = mat(T)
+                old = np.array([Vr[0], Vr[1], Vr[2]], dtype=object) if V0 is not L else L
+                okT = (Tm * Tm.T - sp.eye(3)).is_zero_matrix and Tm.det() == 1 and all(equal(np.array(list(Tm * sp.Matrix(list(old[i]))), dtype=object), out.box._v[i], deep=False) for i in range(3))
+                ctx.ob('NORMALIZE', loc, '%s: the returned transformation is a proper rotation that takes each (right-handed) old cell vector onto the new one' % tag, bool(okT), str(np.asarray(T).tolist())[:160], node=fn, key='state T ' + key)
+                continue
+            ctx.ob('NORMALIZE', loc, '%s: the new cell is the LAMMPS form of the same lengths and angles (lower-triangular, positive diagonal%s)' % (tag, ', of the cell with the third vector reversed' if 'left' in tag else ''),
+                   equal(out.box._v, L, deep=False), str(out.box._v.tolist())[:200], node=fn, key='state cell ' + key)
+            rel = out.box.position_cartesian_to_relative(out.atoms.pos)
+            ctx.ob('NORMALIZE', loc, '%s: every atom keeps its box-relative coordinates%s (positions turn with the cell)' % (tag, ' of the right-handed cell, (s1, s2, 1 - s3)' if 'left' in tag else ''),
+                   equal(rel, Sexp, deep=False), 'relative positions %s' % ([[str(x) for x in r] for r in rel],), node=fn, key='state pos ' + key)
+            w = [e_ for e_ in out.events if e_[0] == 'wrap']
+            ctx.ob('NORMALIZE', loc, '%s: wrap() is called once on the copy, after the cell and the positions have their final values (so every atom ends inside the new cell)' % tag,
+                   len(w) == 1 and not inp.events and equal(w[0][1], out.box._v, deep=False) and equal(w[0][2], out.box._o, deep=False) and equal(w[0][3], out.atoms.pos, deep=False), '%d wrap call(s)' % len(w), node=fn,
+                   key='state wrap ' + key)
+    ctx.floor('NORMALIZE/state', n, 6)
+
+
 def run(ctx):
     from .c01 import cache
     ctx.explanation = ('C05: System.wrap is evaluated over symbolic scaled positions with scripted comparisons for all 8 periodicity settings; normalize and box_set are evaluated against '
                        'recording stubs so that the sequence and arguments of cell changes are decided exactly; copy-on-entry by the alias/mutation analysis; cache invalidation as in C01. '
                        'Not decided: numerical invariance of distances.')
-    ctx.run_rules([wrap, box_set, normalize, cache])
+    ctx.run_rules([wrap, box_set, normalize, normalize_state, cache])
